@@ -9,7 +9,7 @@ PROPERTY = "C08"
 LEVEL = "fault_enumeration"
 RULE = ("exception codes 0..255 x {read, write, write-multi} x {udp-rtu, tcp} x keep-alive x preceded by j in 0..R "
         "dropped transmissions x exception delivered promptly or half a timeout late x entry through the protocol-level "
-        "request, through read_sensor/write_setting('modbus-N') and through command objects built for another unit address; two Modbus/TCP objects with overlapping requests; as the second request on a kept-alive object (with and without "
+        "request, through read_sensor/write_setting('modbus-N') of the ET and DT classes, writes of a named setting, and command objects built for another unit address; two Modbus/TCP objects with overlapping requests; as the second request on a kept-alive object (with and without "
         "yielding in between); after lone fragments of every length; Modbus/TCP exception frames with a wrong MBAP length field; complete enumeration of the codes; distinct = distinct "
         "(transport, keep-alive, command kind, code, j, delay, entry) tuples")
 ASSUMPTIONS = ["reason texts are the standard Modbus exception names (table copied from the specification into refcodec)",
